@@ -90,6 +90,19 @@ impl CipherState {
         self.n
     }
 
+    pub fn has_key(&self) -> bool {
+        self.has_key
+    }
+
+    /// Return to an earlier `(key, nonce, has_key)` state (used to undo a failed handshake operation).
+    pub fn restore(&mut self, key: &[u8; CIPHERKEYLEN], n: u64, has_key: bool) {
+        if has_key {
+            self.cipher.set(key);
+        }
+        self.n = n;
+        self.has_key = has_key;
+    }
+
     pub fn set_nonce(&mut self, nonce: u64) {
         self.n = nonce;
     }
